@@ -161,70 +161,56 @@ theorem decode_of {b : Bytes} {d : Dump} (hd : readDump b = .ok d)
     (h7 : streamRes d b ST_UNLOADED_MODULE_LIST (fun s => readUnloadedModuleList MemSizes.default s b d.endian) = .ok un)
     (h8 : streamRes d b ST_EXCEPTION (fun s => readException s b d.endian) = .ok x)
     (h9 : streamRes d b ST_SYSTEM_INFO (fun s => readSystemInfo s b d.endian) = .ok sy) :
-    ∃ r, decode b = .ok r ∧ r.endian = d.endian ∧ r.flags = d.header.flags ∧
-      r.threads = t.map (fun l => l.map (rthreadOf b)) ∧
-      r.modules = mo.map (fun l => l.map (mmoduleOf d.endian)) ∧
-      r.memory = pickMemory (m9.map (fun l => l.map (regionOf b))) (m5.map (fun l => l.map (regionOf b))) ∧
-      r.memInfo = mi.map (fun l => l.map mmemInfoOf) ∧
-      r.threadNames = tn ∧
-      r.unloaded = un.map (fun l => l.map munloadedOf) ∧
-      r.exception = x.map (rexceptionOf b) ∧
-      r.sysInfo = sy := by
+    decode b = .ok
+      { endian := d.endian, flags := d.header.flags,
+        threads := t.map (fun l => l.map (rthreadOf b)),
+        modules := mo.map (fun l => l.map (mmoduleOf d.endian)),
+        memory := pickMemory (m9.map (fun l => l.map (regionOf b))) (m5.map (fun l => l.map (regionOf b))),
+        memInfo := mi.map (fun l => l.map mmemInfoOf),
+        threadNames := tn,
+        unloaded := un.map (fun l => l.map munloadedOf),
+        exception := x.map (rexceptionOf b),
+        sysInfo := sy } := by
   simp only [decode, hd, h1, h2, h3, h4, h5, h6, h7, h8, h9, Res.bind]
-  exact ⟨_, rfl, rfl, rfl, rfl, rfl, rfl, rfl, rfl, rfl, rfl, rfl⟩
 
-theorem readSystemInfo_safe (s all : Bytes) (e : Endian) (hsz : SliceLen all.size) :
-    Safe (Bnd all) (readSystemInfo s all e) := by
-  unfold readSystemInfo
-  split
-  · exact safe_fail _
-  · exact safe_bind (readStringUtf16_safe _ _ _ hsz (by unfold Bnd K; omega)) (fun r _ => safe_pure _)
-
-/-- **C02.3 `decode_encode_partial`** — for every well-formed model, both byte orders, both memory
-    list forms: reading the encoded file succeeds, the byte order and the header flags are
-    recovered, and the THREAD LIST (ids, suspend counts, priorities, TEBs, stack bytes, context
-    bytes, in file order), the MEMORY served by `get_memory()` (bases and byte-identical contents in
-    file order; the 32-bit form drops the regions it cannot describe, i.e. the empty ones) and the
-    MEMORY-INFO LIST, the THREAD NAMES (a map by thread id, last duplicate wins; names of arbitrary
-    well-formed UTF-16) and the UNLOADED-MODULE LIST are exactly the model's — whatever raw streams
-    were listed earlier in the directory under the same types (last duplicate wins).
-
-    FULL STATEMENT (the goal; see notes/C02.md for the gap):
-      theorem decode_encode : WellFormed' m f → decode (encode m e f) = .ok (report m e f)
-    What is missing for it are the same three-step arguments (records fit / records decode / stream
-    reads back) for the module list (names + the four CodeView shapes), exception and system
-    info; their ingredients — strings (`readStringUtf16_enc`), both
-    list headers, records, placement of every out-of-band group (`oob_placed`), the served stream
-    (`getRawStream_encode`) — are proved, and the engine compares `decode`, `encode` and `report`
-    with the real reader on those streams on every run. Here they are only shown to be read without a
-    panic outcome (C01's lemmas). -/
-theorem decode_encode_partial {m : DumpModel} {f : MemForm} (wf : WellFormed m f) (e : Endian) :
-    ∃ r, decode (encode m e f) = .ok r ∧ r.endian = e ∧ r.flags = m.flags ∧
-      r.threads = (report m e f).threads ∧ r.memory = (report m e f).memory ∧ r.memInfo = (report m e f).memInfo ∧
-      r.threadNames = (report m e f).threadNames ∧ r.unloaded = (report m e f).unloaded := by
+/-- **C02.3 `decode_encode`** — for every well-formed model (lists of any length, any field values
+    that fit the wire widths, names/CSD strings of arbitrary Unicode scalar values, all four
+    CodeView shapes or none, addresses up to 2^64-1, a file below 4 GiB), both byte orders, both
+    memory-list forms, whatever raw streams were listed earlier in the directory under the same
+    types: reading the encoded file yields EXACTLY `report m e f` — the byte order, the header
+    flags, the THREAD LIST (all fields, stack bytes, context bytes, file order), the MODULE LIST
+    (all fields, the 13 version words, names, CodeView records; entries with a bad image size
+    skipped), the MEMORY served by `get_memory()`, the MEMORY-INFO LIST, the THREAD NAMES (map by
+    id, last wins), the UNLOADED-MODULE LIST, the EXCEPTION stream (record, 15 parameters, context
+    bytes; `StreamNotFound` when the model has none) and SYSTEM INFO (all scalar fields, the 24 CPU
+    bytes, the CSD-version string; `StreamNotFound` when the model has none). -/
+theorem decode_encode {m : DumpModel} {f : MemForm} (wf : WellFormed m f) (e : Endian) :
+    decode (encode m e f) = .ok (report m e f) := by
   have hd := readDump_encode wf e
   have hpl := oob_placed m e f
   have hall : (encode m e f).size < 2 ^ 32 := by rw [hpl.size]; exact wf.size
-  have hslice : SliceLen (encode m e f).size := by unfold SliceLen; omega
   have hoff : 0 < oobStart m f := by unfold oobStart; omega
   have hstart : (oobOffsets m f).threads = oobStart m f := rfl
   have hmemoff : 0 < (oobOffsets m f).memory := by simp only [oobOffsets]; omega
   let d : Dump := ⟨e, encHeaderVal (allStreams m e f).length m.flags, dirMap (allStreams m e f), (allStreams m e f).length⟩
-  have hdb := default_bounded
   -- threads
   obtain ⟨tr, ht1, ht2⟩ := readThreadList_enc MemSizes.default (s := (encThreadList e m.pad (oobOffsets m f).threads m.threads).toArray)
     (all := encode m e f) (e := e) (pad := m.pad) (off := (oobOffsets m f).threads) (ts := m.threads) (by simp) wf.threads
     (by rw [hstart]; exact hoff) hpl.threads hall (by simpa using (core_stream_small wf e (core_threads m e f)).1)
   have h1 := streamRes_ok (d := d) (reader := fun s => readThreadList MemSizes.default s (encode m e f) e)
     (getRawStream_encode wf e ST_THREAD_LIST _ (core_threads m e f) d rfl) ht1
+  -- modules
+  obtain ⟨mr, hm1, hm2⟩ := readModuleList_enc MemSizes.default
+    (s := (encModuleList e m.pad (oobOffsets m f).modules m.modules).toArray) (all := encode m e f) (e := e)
+    (pad := m.pad) (off := (oobOffsets m f).modules) (mods := m.modules) (by simp) wf.modules hpl.modules hall
+    (by simpa using (core_stream_small wf e (core_modules m e f)).1)
+  have h2 := streamRes_ok (d := d) (reader := fun s => readModuleList MemSizes.default s (encode m e f) e)
+    (getRawStream_encode wf e ST_MODULE_LIST _ (core_modules m e f) d rfl) hm1
   -- memory info
   obtain ⟨ir, hi1, hi2⟩ := readMemoryInfoList_enc MemSizes.default (s := (encMemInfoList e m.memInfo).toArray) (e := e)
     (is := m.memInfo) (by simp) wf.memInfo (by simpa using (core_stream_small wf e (core_memInfo m e f)).1)
   have h5 := streamRes_ok (d := d) (reader := fun s => readMemoryInfoList MemSizes.default s e)
     (getRawStream_encode wf e ST_MEMORY_INFO_LIST _ (core_memInfo m e f) d rfl) hi1
-  -- the streams whose round trip is not shown here: total by C01
-  obtain ⟨mo, h2⟩ := streamRes_total (B := Bnd (encode m e f)) d (encode m e f) ST_MODULE_LIST
-    (fun s => readModuleList MemSizes.default s (encode m e f) e) (fun s hs => readModuleList_safe _ hdb _ _ _ hslice hs)
   -- thread names
   have hn1 := readThreadNames_enc MemSizes.default (s := (encThreadNames e m.pad (oobOffsets m f).names m.threadNames).toArray)
     (all := encode m e f) (e := e) (pad := m.pad) (off := (oobOffsets m f).names) (ns := m.threadNames) (by simp)
@@ -243,10 +229,37 @@ theorem decode_encode_partial {m : DumpModel} {f : MemForm} (wf : WellFormed m f
     rw [List.any_eq_false]
     intro u hu
     simp [(wf.unloaded u hu).2.2.2.2.1]
-  obtain ⟨x, h8⟩ := streamRes_total (B := Bnd (encode m e f)) d (encode m e f) ST_EXCEPTION
-    (fun s => readException s (encode m e f) e) (fun s _ => readException_safe _ _ _)
-  obtain ⟨sy, h9⟩ := streamRes_total (B := Bnd (encode m e f)) d (encode m e f) ST_SYSTEM_INFO
-    (fun s => readSystemInfo s (encode m e f) e) (fun s _ => readSystemInfo_safe _ _ _ hslice)
+  -- exception
+  have h8 : ∃ x, streamRes d (encode m e f) ST_EXCEPTION (fun s => readException s (encode m e f) e) = .ok x ∧
+      x.map (rexceptionOf (encode m e f)) = (report m e f).exception := by
+    cases hx : m.exception with
+    | none =>
+      refine ⟨_, streamRes_notFound (getRawStream_encode_none wf e ST_EXCEPTION (no_exception m f hx) d rfl), ?_⟩
+      simp [report, hx, Except.map]
+    | some x =>
+      have hctx : Has (encode m e f).toList (oobOffsets m f).exc x.ctx := by
+        have := hpl.exc; simpa [excCtx, hx] using this
+      obtain ⟨r, hr1, hr2⟩ := readException_enc (s := (encException e (oobOffsets m f).exc x).toArray)
+        (all := encode m e f) (e := e) (off := (oobOffsets m f).exc) (x := x) (by simp) (wf.exception x hx) hctx hall
+      refine ⟨_, streamRes_ok (getRawStream_encode wf e ST_EXCEPTION _ (core_exception m e f hx) d rfl) hr1, ?_⟩
+      simp [report, hx, Except.map, hr2]
+  obtain ⟨xr, h8, hx2⟩ := h8
+  -- system info
+  have h9 : streamRes d (encode m e f) ST_SYSTEM_INFO (fun s => readSystemInfo s (encode m e f) e) =
+      .ok (report m e f).sysInfo := by
+    cases hs : m.sysInfo with
+    | none =>
+      have := streamRes_notFound (d := d) (reader := fun s => readSystemInfo s (encode m e f) e)
+        (getRawStream_encode_none wf e ST_SYSTEM_INFO (no_sysInfo m f hs) d rfl)
+      simpa [report, hs] using this
+    | some x =>
+      have hcsd : Has (encode m e f).toList (oobOffsets m f).csd (encString e x.csd) := by
+        have := hpl.csd; simpa [csdString, hs] using this
+      have hr := readSystemInfo_enc (s := (encSysInfo e (oobOffsets m f).csd x).toArray)
+        (all := encode m e f) (e := e) (off := (oobOffsets m f).csd) (x := x) (by simp) (wf.sysInfo x hs) hcsd hall
+      have := streamRes_ok (d := d) (reader := fun s => readSystemInfo s (encode m e f) e)
+        (getRawStream_encode wf e ST_SYSTEM_INFO _ (core_sysInfo m e f hs) d rfl) hr
+      simpa [report, hs] using this
   -- memory, by form
   cases f with
   | mem =>
@@ -258,13 +271,10 @@ theorem decode_encode_partial {m : DumpModel} {f : MemForm} (wf : WellFormed m f
       (getRawStream_encode wf e ST_MEMORY_LIST _ (core_memory m e) d rfl) hr1
     have h4 := streamRes_notFound (d := d) (reader := fun s => readMemory64List MemSizes.default s (encode m e .mem) e)
       (getRawStream_encode_none wf e ST_MEMORY64_LIST (no_memory64_in_mem m) d rfl)
-    obtain ⟨r, hr, he, hfl, hth, _, hmem, hmi, htn, hun, _⟩ := decode_of hd h1 h2 h3 h4 h5 h6 h7 h8 h9
-    refine ⟨r, hr, he, hfl, ?_, ?_, ?_, ?_, ?_⟩
-    · rw [hth]; simp [report, Except.map, ht2]
-    · rw [hmem]; simp [report, Except.map, pickMemory, hr2]
-    · rw [hmi]; simp [report, Except.map, hi2]
-    · rw [htn]; rfl
-    · rw [hun]; simp [report, Except.map, hu2, hnobad]
+    rw [decode_of hd h1 h2 h3 h4 h5 h6 h7 h8 h9]
+    simp only [hx2]
+    simp only [Except.map, pickMemory, ht2, hm2, hr2, hi2, hu2]
+    simp [report, hnobad, encHeaderVal]
   | mem64 =>
     obtain ⟨rr, hr1, hr2⟩ := readMemory64List_enc MemSizes.default
       (s := (encMemory64List e (oobOffsets m .mem64).memory m.memory).toArray) (all := encode m e .mem64) (e := e)
@@ -274,26 +284,40 @@ theorem decode_encode_partial {m : DumpModel} {f : MemForm} (wf : WellFormed m f
       (getRawStream_encode wf e ST_MEMORY64_LIST _ (core_memory64 m e) d rfl) hr1
     have h3 := streamRes_notFound (d := d) (reader := fun s => readMemoryList MemSizes.default s (encode m e .mem64) e)
       (getRawStream_encode_none wf e ST_MEMORY_LIST (no_memory_in_mem64 m) d rfl)
-    obtain ⟨r, hr, he, hfl, hth, _, hmem, hmi, htn, hun, _⟩ := decode_of hd h1 h2 h3 h4 h5 h6 h7 h8 h9
-    refine ⟨r, hr, he, hfl, ?_, ?_, ?_, ?_, ?_⟩
-    · rw [hth]; simp [report, Except.map, ht2]
-    · rw [hmem]; simp [report, Except.map, pickMemory, hr2]
-    · rw [hmi]; simp [report, Except.map, hi2]
-    · rw [htn]; rfl
-    · rw [hun]; simp [report, Except.map, hu2, hnobad]
+    rw [decode_of hd h1 h2 h3 h4 h5 h6 h7 h8 h9]
+    simp only [hx2]
+    simp only [Except.map, pickMemory, ht2, hm2, hr2, hi2, hu2]
+    simp [report, hnobad, encHeaderVal]
 
-/-- non-vacuity of `WellFormed`: a model with a thread, two regions (one empty), a memory-info
-    entry and a duplicate thread-list entry earlier in the directory -/
+/-- non-vacuity of `WellFormed`: a model with a thread, five modules (PDB 7.0, PDB 2.0, ELF build id,
+    unknown signature, no record; one of them with a bad image size), two regions (one empty), a
+    memory-info entry, an exception, system info with a non-BMP CSD string, and a duplicate
+    thread-list entry earlier in the directory -/
 def exampleModel : DumpModel :=
   { flags := 5, pad := true,
     threads := [⟨7, 1, 2, 3, 4096, 8192, [1, 2, 3], [9, 9]⟩],
-    modules := [], memory := [⟨4096, [10, 11, 12, 13]⟩, ⟨100, []⟩], memInfo := [⟨1, 2, 3, 4, 5, 6, 7⟩],
-    threadNames := [(7, [0x61])], unloaded := [⟨8192, 4096, 1, 2, [0x62]⟩], exception := none, sysInfo := none,
+    modules := [⟨4194304, 4096, 1, 2, [1, 2, 3, 4, 5, 6, 7, 8, 9, 10, 11, 12, 13], [0x61, 0x1F600],
+                  some (.pdb70 0xABCD1234 0xF00D 0xBEEF [1, 2, 3, 4, 5, 6, 7, 8] 1 [0x61, 0])⟩,
+                ⟨8388608, 0, 1, 2, [0, 0, 0, 0, 0, 0, 0, 0, 0, 0, 0, 0, 0], [], some (.pdb20 1 2 3 [0x62])⟩,
+                ⟨12582912, 16, 1, 2, [0, 0, 0, 0, 0, 0, 0, 0, 0, 0, 0, 0, 0], [0x6c], some (.elf [1, 2, 3])⟩,
+                ⟨16777216, 16, 1, 2, [0, 0, 0, 0, 0, 0, 0, 0, 0, 0, 0, 0, 0], [0x6d], some (.unknown 7 [1])⟩,
+                ⟨20971520, 16, 1, 2, [0, 0, 0, 0, 0, 0, 0, 0, 0, 0, 0, 0, 0], [0x6e], none⟩],
+    memory := [⟨4096, [10, 11, 12, 13]⟩, ⟨100, []⟩], memInfo := [⟨1, 2, 3, 4, 5, 6, 7⟩],
+    threadNames := [(7, [0x61])], unloaded := [⟨8192, 4096, 1, 2, [0x62]⟩],
+    exception := some ⟨7, 11, 0, 0, 1234, 2, [1, 2, 3, 4, 5, 6, 7, 8, 9, 10, 11, 12, 13, 14, 15], [0xaa]⟩,
+    sysInfo := some ⟨9, 6, 0, 4, 1, 10, 0, 19041, 3, 0,
+      [0, 1, 2, 3, 4, 5, 6, 7, 8, 9, 10, 11, 12, 13, 14, 15, 16, 17, 18, 19, 20, 21, 22, 23], [0x53, 0x1F600]⟩,
     extra := [(3, [0, 0])] }
+
+theorem validName_of_all (cs : List Nat) (h : cs.all (fun c => decide (c < 0xD800 ∨ (0xE000 ≤ c ∧ c < 0x110000))) = true) :
+    ValidName cs := by
+  intro c hc
+  have := List.all_eq_true.mp h c hc
+  simpa [ValidScalar] using this
 
 example : WellFormed exampleModel .mem ∧ WellFormed exampleModel .mem64 := by
   constructor <;>
-  · refine ⟨by decide, by decide, ?_, ?_, ?_, ?_, ?_, ?_⟩
+  · refine ⟨by decide, by decide, ?_, ?_, ?_, ?_, ?_, ?_, ?_, ?_, ?_⟩
     · intro t ht
       simp only [exampleModel, List.mem_singleton] at ht
       subst ht
@@ -308,16 +332,35 @@ example : WellFormed exampleModel .mem ∧ WellFormed exampleModel .mem64 := by
     · intro n hn
       simp only [exampleModel, List.mem_cons, List.not_mem_nil, or_false] at hn
       subst hn
-      exact ⟨by decide, by intro c hc; simp only [List.mem_cons, List.not_mem_nil, or_false] at hc; subst hc; left; decide⟩
+      exact ⟨by decide, validName_of_all _ (by decide)⟩
     · intro u hu
       simp only [exampleModel, List.mem_cons, List.not_mem_nil, or_false] at hu
       subst hu
-      exact ⟨by decide, by decide, by decide, by decide, by decide,
-        by intro c hc; simp only [List.mem_cons, List.not_mem_nil, or_false] at hc; subst hc; left; decide⟩
+      exact ⟨by decide, by decide, by decide, by decide, by decide, validName_of_all _ (by decide)⟩
+    · intro x hx
+      simp only [exampleModel, List.mem_cons, List.not_mem_nil, or_false] at hx
+      rcases hx with rfl | rfl | rfl | rfl | rfl <;>
+        refine ⟨by decide, by decide, by decide, by decide, by decide, by decide, validName_of_all _ (by decide), ?_⟩ <;>
+        intro cv hcv <;> simp only [Option.some.injEq, reduceCtorEq] at hcv <;> subst hcv <;>
+        simp only [CvFits] <;> decide
+    · intro x hx
+      simp only [exampleModel, Option.some.injEq] at hx
+      subst hx
+      exact ⟨by decide, by decide, by decide, by decide, by decide, by decide, by decide, by decide⟩
+    · intro x hx
+      simp only [exampleModel, Option.some.injEq] at hx
+      subst hx
+      exact ⟨by decide, by decide, by decide, by decide, by decide, by decide, by decide, by decide, by decide,
+        by decide, by decide, validName_of_all _ (by decide)⟩
     · intro x hx
       simp only [exampleModel, List.mem_singleton] at hx
       subst hx
       decide
+
+/-- the theorem is not vacuous on a stream it newly covers: the model's third module (ELF) is in
+    the report, the second (image size 0) is not -/
+example : (report exampleModel .big .mem).modules = .ok (exampleModel.modules.eraseIdx 1) := by
+  simp [report, exampleModel, badImageSize, U64MAX]
 
 /-! ## 4. "byte-identical memory at every address of every region" -/
 
@@ -333,8 +376,7 @@ theorem memory_bytes_exact {m : DumpModel} {f : MemForm} (wf : WellFormed m f) (
     (j : Nat) (hj : j < r.bytes.length) :
     ∃ rep rs, decode (encode m e f) = .ok rep ∧ rep.memory = .ok rs ∧
       memoryByteAt rs (r.base + j) = some r.bytes[j] := by
-  obtain ⟨rep, h1, _, _, _, h2, _, _, _⟩ := decode_encode_partial wf e
-  refine ⟨rep, pre ++ r :: post, h1, by rw [h2, hm], ?_⟩
+  refine ⟨report m e f, pre ++ r :: post, decode_encode wf e, hm, ?_⟩
   rw [memoryByteAt_exact pre post r j hj hfit hiso]
   simp [hj]
 
@@ -370,19 +412,15 @@ example : memoryByteAt [⟨18446744073709551615, [226]⟩] 18446744073709551615 
 
 /-! ## 5. "The same model written little-endian or big-endian parses to the same result" -/
 
-/-- **C02.5 `endian_agnostic_partial`** — the two byte orders of one model decode to the same flags,
-    threads, memory, memory info, thread names and unloaded modules (the fields `decode_encode_partial` covers). For the remaining
-    fields see the FULL STATEMENT at `decode_encode_partial`; an ELF debug identifier is BY
-    DEFINITION the build id read as a GUID in the dump's byte order (`debugId`), so that one
-    derived field is the documented exception (notes/C02.md). -/
-theorem endian_agnostic_partial {m : DumpModel} {f : MemForm} (wf : WellFormed m f) :
+/-- **C02.5 `endian_agnostic`** — the two byte orders of one model decode to the same result: every
+    field of what the reader reports is equal, except the byte-order tag itself (which is recovered
+    correctly in both). One DERIVED string depends on that tag by definition — the debug identifier
+    of an ELF build id is the build id read as a GUID in the dump's byte order (`debugId e`, see
+    `ids_as_documented` and notes/C02.md) — the CodeView record it is derived from is equal. -/
+theorem endian_agnostic {m : DumpModel} {f : MemForm} (wf : WellFormed m f) :
     ∃ rl rb, decode (encode m .little f) = .ok rl ∧ decode (encode m .big f) = .ok rb ∧
-      rl.endian = .little ∧ rb.endian = .big ∧ rl.flags = rb.flags ∧ rl.threads = rb.threads ∧
-      rl.memory = rb.memory ∧ rl.memInfo = rb.memInfo ∧ rl.threadNames = rb.threadNames ∧ rl.unloaded = rb.unloaded := by
-  obtain ⟨rl, h1, h2, h3, h4, h5, h6, h7, h8⟩ := decode_encode_partial wf .little
-  obtain ⟨rb, g1, g2, g3, g4, g5, g6, g7, g8⟩ := decode_encode_partial wf .big
-  exact ⟨rl, rb, h1, g1, h2, g2, by rw [h3, g3], by rw [h4, g4]; rfl, by rw [h5, g5]; rfl, by rw [h6, g6]; rfl,
-    by rw [h7, g7]; rfl, by rw [h8, g8]; rfl⟩
+      rl.endian = .little ∧ rb.endian = .big ∧ { rl with endian := .big } = rb :=
+  ⟨report m .little f, report m .big f, decode_encode wf .little, decode_encode wf .big, rfl, rfl, rfl⟩
 
 /-! ## 6. "debug/code identifiers equal to the documented derivation from the CodeView record" -/
 
